@@ -28,6 +28,7 @@ Definition dispatch (e : sexp) : option sexp :=
   | SList (Atom "usagedoc" :: _) => run_usagedoc e
   | SList (Atom "rendermap" :: _) => run_rendermap e
   | SList (Atom "validfile" :: _) => run_validfile e
+  | SList (Atom "validvals" :: _) => run_validvals e
   | SList (Atom "splitws" :: _) => run_splitws e
   | SList (Atom "become" :: _) => run_become e
   | _ => None
